@@ -599,20 +599,77 @@ def rule_ag_reg(repo, col):
     paired list-of-str functions; inverse sentinels agree."""
     rule = 'AG-REG'
 
+    unresolved = set()
+
     def registry(func, var):
+        """Keys -> function name of a registry built by any of: item
+        stores, a dict literal / dict.fromkeys / dict comprehension handed to
+        defaultdict or .update()."""
+        from .astutil import local_assignments
+        assigns = local_assignments(func)
         out = {}
         default = None
+
+        def const_keys(e, depth=0):
+            if isinstance(e, ast.Name) and e.id in assigns and depth < 3:
+                vals = [v for v, _ in assigns[e.id] if v is not None]
+                if len(vals) == 1:
+                    return const_keys(vals[0], depth + 1)
+            if isinstance(e, (ast.Tuple, ast.List, ast.Set)) and all(
+                    const_str(x) for x in e.elts):
+                return [const_str(x) for x in e.elts]
+            return None
+
+        def mapping(e):
+            """dict of key -> dotted function name, or None."""
+            if isinstance(e, ast.Dict) and all(
+                    k is not None and const_str(k) for k in e.keys):
+                return {const_str(k): dotted(v)
+                        for k, v in zip(e.keys, e.values)}
+            if isinstance(e, ast.Call) and call_name(e) == 'dict.fromkeys' \
+                    and len(e.args) == 2:
+                ks = const_keys(e.args[0])
+                if ks is not None:
+                    return {k: dotted(e.args[1]) for k in ks}
+            if isinstance(e, ast.DictComp) and len(e.generators) == 1 and \
+                    isinstance(e.key, ast.Name) and isinstance(
+                        e.generators[0].target, ast.Name) and \
+                    e.key.id == e.generators[0].target.id:
+                ks = const_keys(e.generators[0].iter)
+                if ks is not None:
+                    return {k: dotted(e.value) for k in ks}
+            return None
         for n in ast.walk(func):
             if isinstance(n, ast.Assign) and isinstance(
                     n.targets[0], ast.Subscript) and \
-                    dotted(n.targets[0].value) == var and \
-                    const_str(n.targets[0].slice):
-                out[const_str(n.targets[0].slice)] = dotted(n.value)
+                    dotted(n.targets[0].value) == var:
+                if const_str(n.targets[0].slice):
+                    out[const_str(n.targets[0].slice)] = dotted(n.value)
+                else:
+                    unresolved.add(var)
             if isinstance(n, ast.Assign) and dotted(n.targets[0]) == var and \
                     isinstance(n.value, ast.Call) and \
                     call_name(n.value) == 'defaultdict' and n.value.args and \
                     isinstance(n.value.args[0], ast.Lambda):
                 default = dotted(n.value.args[0].body)
+                for extra in n.value.args[1:]:
+                    m = mapping(extra)
+                    if m is None:
+                        unresolved.add(var)
+                    else:
+                        out.update(m)
+                if n.value.keywords:
+                    unresolved.add(var)
+            elif isinstance(n, ast.Assign) and dotted(n.targets[0]) == var:
+                unresolved.add(var)
+            if isinstance(n, ast.Call) and dotted(n.func) == '%s.update' \
+                    % var and n.args and dotted(n.args[0]) not in (
+                        'parse_fs', 'format_fs'):
+                m = mapping(n.args[0])
+                if m is None:
+                    unresolved.add(var)
+                else:
+                    out.update(m)
         return out, default
     fw = repo.func(TABLE, 'Table.to_hdf5')
     fr = repo.func(TABLE, 'Table.from_hdf5')
@@ -623,7 +680,8 @@ def rule_ag_reg(repo, col):
               'general_formatter / general_parser are the defaults',
               'registry defaults are %s / %s' % (wdef, rdef))
     for k in sorted(set(wreg) | set(rreg)):
-        col.check(k in wreg and k in rreg, rule, TABLE, 'Table.from_hdf5',
+        (col.soft if unresolved else col.check)(
+                  k in wreg and k in rreg, rule, TABLE, 'Table.from_hdf5',
                   'key:%s' % k, None, 'in both registries',
                   "category '%s' is special-cased by %s only: it is "
                   'written in one layout and parsed as another'
